@@ -698,35 +698,9 @@ Proof.
   lia.
 Qed.
 
-(* ------------------------------------------------------------------ executable checks of the hypotheses
-   (used for the non-vacuity example and, extracted, on every generated case) *)
-Definition is_some {A} (o : option A) : bool := match o with Some _ => true | None => false end.
-
-Definition items_ok_b (h : heap) (c : contents) : bool :=
-  forallb (fun p => is_some (nget p h)) (item_ptrs c).
-
-Definition wf_b (h : heap) (rg : registry) (tls : list contents) : bool :=
-  forallb (fun kv => is_some (nget (Npos (fst kv)) h)) (PM.elements rg) &&
-  forallb (fun kv => items_ok_b h (snd kv)) (PM.elements h) &&
-  forallb (items_ok_b h) tls.
-
-Definition rawdec_b (h : heap) (rg : registry) (rk : word -> nat) : bool :=
-  forallb (fun kv => let p := Npos (fst kv) in
-                     negb (is_raw h rg p) ||
-                     forallb (fun q => negb (is_raw h rg q) || (rk q <? rk p)) (item_ptrs (snd kv)))
-          (PM.elements h).
-
-Definition range_b (rg : registry) (minptr maxptr : N) : bool :=
-  forallb (fun kv => let p := Npos (fst kv) in ((p mod 8 =? 0) && (minptr <=? p) && (p <=? maxptr))%N)
-          (PM.elements rg).
-
-Fixpoint nodup_b (l : list word) : bool :=
-  match l with [] => true | a :: r => negb (existsb (N.eqb a) r) && nodup_b r end.
-
-Definition order_b (rg : registry) (order : list word) : bool :=
-  nodup_b order && forallb (registered rg) order &&
-  forallb (fun kv => existsb (N.eqb (Npos (fst kv))) order) (PM.elements rg).
-
+(* ------------------------------------------------------------------ soundness of the executable checks of
+   the hypotheses (HeapGraph.v: wf_b rawdec_b range_b order_b; used for the non-vacuity example and,
+   extracted, at every collection point of every generated case) *)
 Lemma nget_elements {A} (w : word) (a : A) (m : nmap A) :
   nget w m = Some a -> exists p, w = Npos p /\ In (p, a) (PM.elements m).
 Proof.
